@@ -771,6 +771,7 @@ struct W2
     bool                            stopped, harness_error;
     int                             id_b;      // initial allocator id of B (1 or 2)
     std::FILE                      *dumpf;
+    std::FILE                      *emitf;
 
     struct StateRec { Shape shape; History hist; };
     std::vector<StateRec> states;
@@ -778,7 +779,7 @@ struct W2
 
     Explorer (const Options& o, const std::set<std::uint64_t>& sk, std::uint64_t stop)
       : opt (o), skip (sk), seq (0), stop_at (stop), t0 (now_s ()), stopped (false),
-        harness_error (false), id_b (1), dumpf (0) { }
+        harness_error (false), id_b (1), dumpf (0), emitf (0) { }
 
     TrialResult run_trial (const History& h, const Op& op, const Shape *want, int fkind = -1)
     {
@@ -943,6 +944,8 @@ struct W2
           ++st.transitions;
           note (cur.shape, op, r0);
           gate (r0, "0");
+          if (emitf && ! r0.violated && r0.exc == EX_NONE && id_b == 1 && op.kind <= OP2_COMPARE)
+            emit_trace (emitf, cur.hist, op);
           if (st.transitions % 9973 == 1 && sink.samples.size () < 12)
             sink.samples.push_back ("ids " + std::string (idb == 1 ? "equal" : "unequal") + "; A(size " + itos (cur.shape.sa) + ",cap "
               + itos (cur.shape.ca) + ",#" + itos (cur.shape.ia) + ") B(size " + itos (cur.shape.sb) + ",cap " + itos (cur.shape.cb)
@@ -994,6 +997,8 @@ struct W2
     {
       if (! opt.dump.empty ())
         dumpf = std::fopen (opt.dump.c_str (), "w");
+      if (! opt.emit.empty ())
+        emitf = std::fopen (opt.emit.c_str (), "w");
       st.exhaustive = true;
       explore_from (1);
       if (! AT::is_std && ! harness_error)
@@ -1001,6 +1006,8 @@ struct W2
       st.wall = now_s () - t0;
       if (dumpf)
         std::fclose (dumpf);
+      if (emitf)
+        std::fclose (emitf);
     }
   };
 
